@@ -14,5 +14,6 @@ def run(ctx):
         "only documents using declared properties and accepted by the reference validator of the source format are judged",
         "C01 only needs the decoders and the encoder: Go is generated with generate_json_marshaller and generate_strict_unmarshaller "
         "only, so that a defect in the emitted Equals/Validate (C13/C08/C02's subject) cannot hide a package from this check",
-    ], must=("optional-collections", "times-and-numeric-unions", "reused-nullable-union", "case-twins"),
+    ], must=("optional-collections", "times-and-numeric-unions", "reused-nullable-union", "case-twins",
+              "reused-union-orders", "reused-union-orders-reversed", "optional-defaults", "union-two-constants"),
         go_flags={"generate_json_marshaller": True, "generate_strict_unmarshaller": True})
